@@ -5,15 +5,23 @@ import Wbxml.Lemmas.ParserSafeLoops
 namespace Wbxml.Lemmas.ParserSafe
 open Wbxml Wbxml.Model
 
+-- The error-code constants are literals (none of them is 0 = `WBXML_OK`).
+attribute [local simp] E.badDatetime E.internal E.langTableUndefined E.tagTableUndefined E.b64Enc
+  E.wvDatetimeFormat E.noCharsetConv E.charsetStrLen E.charsetNotFound E.attrTableUndefined
+  E.attrValueTableUndefined E.badOpaqueLength E.emptyWbxml E.endOfBuffer E.extValueTableUndefined
+  E.invalidStrtblIndex E.nullStringTable E.stringExpected E.strtblLength E.unknownAttrValue
+  E.unknownExtensionToken E.unknownPublicId E.unvalidMbUint32 E.wvIntegerOverflow E.invalidUnicode
+
 /-- The anatomy of a run of `parse`: either the header fails with an error code (no events), or
     the body fails with an error code (only `startDoc` is reported by the model), or both succeed,
     the final cursor is a suffix of the input at least four bytes in, and `consumed` is its offset. -/
 theorem parse_anatomy (cfg : PCfg) (bs : Bytes) :
     (∃ c, parseHeader cfg bs = .error (.code c) ∧ (parse cfg bs).result = .error (.code c) ∧
-        (parse cfg bs).events = []) ∨
+        (parse cfg bs).events = [] ∧ c ≠ 0) ∨
     (∃ s l c, parseHeader cfg bs = .ok (s, l) ∧
         parseBody [Event.startDoc s.charset l.id] s = .error (.code c) ∧
-        (parse cfg bs).result = .error (.code c) ∧ (parse cfg bs).events = [Event.startDoc s.charset l.id]) ∨
+        (parse cfg bs).result = .error (.code c) ∧ (parse cfg bs).events = [Event.startDoc s.charset l.id] ∧
+        c ≠ 0) ∨
     (∃ s l ev s', parseHeader cfg bs = .ok (s, l) ∧
         parseBody [Event.startDoc s.charset l.id] s = .ok (ev, s') ∧
         (parse cfg bs).result = .ok () ∧ (parse cfg bs).events = ev ++ [Event.endDoc] ∧
@@ -21,24 +29,26 @@ theorem parse_anatomy (cfg : PCfg) (bs : Bytes) :
         s'.rest <:+ bs ∧ s'.rest.length + 4 ≤ bs.length) := by
   have hh := parseHeader_ok cfg bs
   unfold parse
-  rcases hh.cases with ⟨⟨s, l⟩, hs, hl, hsuf, hlen⟩ | ⟨c, hc⟩
+  rcases hh.cases with ⟨⟨s, l⟩, hs, hl, hsuf, hlen⟩ | ⟨c, hc, hc0⟩
   · have hb := parseBody_ok [Event.startDoc s.charset l.id] (s := s) (by rw [hl]; simp)
-    rcases hb.cases with ⟨⟨ev, s'⟩, hb', hadv⟩ | ⟨c, hc⟩
+    rcases hb.cases with ⟨⟨ev, s'⟩, hb', hadv⟩ | ⟨c, hc, hc0⟩
     · refine Or.inr (Or.inr ⟨s, l, ev, s', hs, hb', ?_⟩)
       have := hadv.len
       dsimp only at hlen this
       simp only [hs, hb', true_and]
       exact ⟨hadv.suffix.trans hsuf, by omega⟩
     · refine Or.inr (Or.inl ⟨s, l, c, hs, hc, ?_⟩)
-      simp only [hs, hc, and_self]
+      simp only [hs, hc, true_and]
+      exact hc0
   · refine Or.inl ⟨c, hc, ?_⟩
-    simp only [hc, and_self]
+    simp only [hc, true_and]
+    exact hc0
 
 /-- The verdict of `parse` is success or a library error code — never `ub`, `fuel`, `crash`. -/
 theorem parse_result_ok (cfg : PCfg) (bs : Bytes) : Safe (parse cfg bs).result := by
-  rcases parse_anatomy cfg bs with ⟨c, _, h, _⟩ | ⟨s, l, c, _, _, h, _⟩ | ⟨s, l, ev, s', _, _, h, _⟩
-  · rw [h]; simp
-  · rw [h]; simp
+  rcases parse_anatomy cfg bs with ⟨c, _, h, _, h0⟩ | ⟨s, l, c, _, _, h, _, h0⟩ | ⟨s, l, ev, s', _, _, h, _⟩
+  · rw [h]; simpa using h0
+  · rw [h]; simpa using h0
   · rw [h]; simp
 
 /-! ### The header as three stages -/
